@@ -25,6 +25,7 @@ type genProfile struct {
 	nilRounds      bool
 	stallFirst     bool // half of the cases begin with a stalled consumer
 	concVoting     bool // concurrent groups: mostly overlapping multi-target votes at the voting round
+	racePairs      bool // most concurrent groups are a light and a heavy caller for the same block hash
 }
 
 func weighted[T any](t *rapid.T, label string, items []T, weights []int) T {
@@ -215,6 +216,25 @@ func genOp(t *rapid.T, cfg simCfg, p genProfile, depth int) Op {
 		op.Who = rapid.IntRange(0, 1).Draw(t, "who")
 		op.N = rapid.IntRange(1, 3).Draw(t, "nread")
 	case "conc":
+		if rp := rapid.IntRange(0, 2).Draw(t, "race-pair"); p.concVoting && n >= 2 && (rp == 0 || (p.racePairs && rp == 1)) {
+			// a light and a heavy caller for the same block hash of the voting round: the heavy
+			// one is still verifying when the light one's update has been applied, so its own
+			// update conflicts and is retried
+			kind := rapid.IntRange(0, 1).Draw(t, "votekind")
+			tgt := weighted(t, "target", []int{-1, 0, 1}, []int{2, 6, 1})
+			one := uint32(1) << uint(rapid.IntRange(0, n-1).Draw(t, "light-signer"))
+			light := Op{K: "vote", Kind: kind, T: []VT{{T: tgt, S: one}}}
+			heavy := Op{K: "vote", Kind: kind, T: []VT{{T: tgt, S: fullMask(n) &^ one}}}
+			if rapid.Bool().Draw(t, "heavy-second-target") {
+				heavy.T = append(heavy.T, VT{T: weighted(t, "target2", []int{-1, 0, 1, 100}, []int{2, 2, 2, 1}), S: genMask(t, n, "signers2")})
+			}
+			op.N = 1 // marks the group as a race pair (label only)
+			op.Sub = []Op{light, heavy}
+			if rapid.Bool().Draw(t, "heavy-first") {
+				op.Sub = []Op{heavy, light}
+			}
+			return op
+		}
 		k := rapid.IntRange(2, 4).Draw(t, "nsub")
 		for i := 0; i < k; i++ {
 			sub := genOp(t, cfg, p, depth+1)
